@@ -545,8 +545,16 @@ class Env:
     def _tags(self, tags: dict) -> dict:
         k = tags.get("class", "-")
         return {"k": self.inv.get(k, k), "err": "err" in tags, "stop": tags.get("stop_reason", "-"),
-                "cause": tags.get("cause", "-"), "op": tags.get("operation") == "op"
-                if "operation" in tags else False}
+                "cause": tags.get("cause", "-"), "op": tags.get("operation") == "op",
+                **self._foreign_op(tags)}
+
+    @staticmethod
+    def _foreign_op(tags: dict) -> dict:
+        """op is TRUE for the operation name given by the caller and FALSE for none (or, for a
+        decorated function without an explicit name, its own name); any other name is reported in
+        an extra field that no model event has"""
+        o = tags.get("operation")
+        return {} if o in (None, "op", "target") else {"optag": str(o)}
 
     _CMP = ("name", "n", "sleep", "k", "err", "stop", "cause", "op", "t")
 
